@@ -1,6 +1,8 @@
 import OmplModel.Proofs.Oracle
 import OmplModel.Proofs.PlannerReport
 import OmplModel.Proofs.RRT
+import OmplModel.Proofs.RRTHistory
+import OmplModel.Proofs.GoalStates
 import OmplModel.Proofs.RRTConnect
 import OmplModel.Proofs.RRTReal
 import OmplModel.Proofs.LazyPRM
@@ -741,6 +743,220 @@ theorem lazyprm_relabel_selfcheck_redundant (c0 : Nat) (l : List Nat) (r : LazyP
 
 end LazyPRM
 
+
+/-! ## L2h: histories of one RRT object (round 10)
+
+`solve()` does not start from scratch: the tree, `PlannerInputStates`' start counter and `lastGoalMotion_` survive,
+`clear()` resets them, and between two calls the user may add start states, change the range, the goal threshold and
+the intermediate-state flag, call `setup()` again and empty the problem definition's solution list.
+`Model/RRTHistory.lean` models these calls (`Op`, `applyOp`, `runOps`); the harness drives the real object through the
+same histories in lock-step. -/
+
+section History
+
+/-- **A history of length one on a fresh object is the single-call model** (so everything proved about `RRT.solve`
+is about the first `solve()` of every history). -/
+theorem rrt_history_first_call (cfg : Cfg S D) (starts : Array S) (script : List (Draw S)) :
+    solveFrom cfg starts {} script = solve cfg starts script := (solve_eq_solveFrom cfg starts script).symm
+
+/-- **One call, from ANY state a history can reach** (`WInv`: the tree's roots are filtered starts of the problem
+definition, every edge is a validated motion or a piece of one; the start counter does not exceed the number of starts):
+every `Op` keeps `WInv`; a `solve` reports truthfully for the parameters then in force (`RepReal`: a solution status
+comes with `addSolutionPath(path, approx, dif)` whose path starts at a filtered start, runs along justified edges, has
+`dif = distanceGoal(last)`, `approx = false ↔ distanceGoal(last) < threshold`, EXACT ↔ ¬approx, APPROXIMATE ↔ approx; any
+other status adds nothing); a solution status adds exactly one solution to the problem definition, any other status
+leaves it unchanged; start states are never lost. -/
+theorem rrt_history_step (cfg : Cfg S D) (eps autoRange : D) (w : World S D) (op : Op S D) (h : WInv cfg w) :
+    WInv cfg (applyOp cfg eps autoRange w op).1 ∧
+      (∀ s, ValidStart cfg w.pd.starts s → ValidStart cfg (applyOp cfg eps autoRange w op).1.pd.starts s) ∧
+      (∀ r, (applyOp cfg eps autoRange w op).2 = some r →
+        RepReal cfg (applyOp cfg eps autoRange w op).1.pd.starts (w.params, r) ∧
+        (r.status.toBool = true →
+          getSolutionCount (applyOp cfg eps autoRange w op).1.pd = getSolutionCount w.pd + 1) ∧
+        (r.status.toBool = false → (applyOp cfg eps autoRange w op).1.pd = w.pd)) := by
+  obtain ⟨a1, a2, a3, _⟩ := applyOp_spec cfg eps autoRange w op h
+  refine ⟨a1, a2, fun r hr => ⟨a3 r hr, ?_, ?_⟩⟩
+  · intro hb
+    obtain ⟨path, approx, dif, hadd, _⟩ := (a3 r hr).1 hb
+    cases op <;> simp only [applyOp, Option.some.injEq] at hr <;> try (exact absurd hr (by simp))
+    subst hr
+    have hadd' := hadd
+    simp only at hadd'
+    simp only [applyOp, hadd']
+    exact addSolutionPath_count _ _ _ _ _
+  · intro hb
+    have hadd := (a3 r hr).2 hb
+    cases op <;> simp only [applyOp, Option.some.injEq] at hr <;> try (exact absurd hr (by simp))
+    subst hr
+    have hadd' := hadd
+    simp only at hadd'
+    simp only [applyOp, hadd']
+
+/-- **Every history**: for every configuration, start set, initial parameters and EVERY finite sequence of calls
+(`solve` with any script, `clear`, `addStartState`, `setRange`, `setThreshold`, `setIntermediateStates`, `setup`,
+`clearSolutionPaths`) on a fresh planner and a problem definition without solutions:
+(1) the report of every `solve` in the history is truthful (`RepReal`, with the threshold in force at that call and the
+start states the problem definition holds at the end — they only grow);
+(2) every solution the problem definition holds at the end was registered by one of these reports, with the flag it
+reported and the difference it reported (0 for an exact one);
+(3) hence every such solution starts at a filtered start, runs along justified edges, and its recorded difference is
+the goal distance of its last state when flagged approximate;
+(4) `runOpsP` is `runOps` with the parameters recorded (same world, same reports). -/
+theorem rrt_history_real (cfg : Cfg S D) (eps autoRange : D) (starts : Array S) (p : Params D) (ops : List (Op S D)) :
+    let res := runOpsP cfg eps autoRange (World.fresh starts p) ops
+    (∀ pr ∈ res.2, RepReal cfg res.1.pd.starts pr) ∧
+      (∀ sol ∈ res.1.pd.solutions, ∃ pr ∈ res.2, FromReport cfg.zero pr sol) ∧
+      (∀ sol ∈ res.1.pd.solutions,
+        (∃ s0, sol.path.head? = some s0 ∧ ValidStart cfg res.1.pd.starts s0) ∧ Chain (LinkAny cfg) sol.path ∧
+        ∃ last, sol.path.getLast? = some last ∧
+          (sol.approximate = true → sol.difference = cfg.goalDist last) ∧
+          (sol.approximate = false → sol.difference = cfg.zero ∧
+            ∃ pr ∈ res.2, cfg.lt (cfg.goalDist last) pr.1.threshold = true)) ∧
+      res.1 = (runOps cfg eps autoRange (World.fresh starts p) ops).1 ∧
+      res.2.map (·.2) = (runOps cfg eps autoRange (World.fresh starts p) ops).2 := by
+  intro res
+  obtain ⟨_, _, b3, b4⟩ := runOpsP_spec cfg eps autoRange ops (World.fresh starts p) (fresh_inv cfg starts p)
+  have hfrom : ∀ sol ∈ res.1.pd.solutions, ∃ pr ∈ res.2, FromReport cfg.zero pr sol := by
+    intro sol hs
+    rcases b4 sol hs with h | h
+    · simp [World.fresh] at h
+    · exact h
+  refine ⟨b3, hfrom, ?_, (runOpsP_fst cfg eps autoRange ops _).1, (runOpsP_fst cfg eps autoRange ops _).2⟩
+  intro sol hs
+  obtain ⟨pr, hpr, dif, hadd, hdif⟩ := hfrom sol hs
+  have hrep := b3 pr hpr
+  have hb : pr.2.status.toBool = true := by
+    cases hb : pr.2.status.toBool with
+    | true => rfl
+    | false => rw [hrep.2 hb] at hadd; exact absurd hadd (by simp)
+  obtain ⟨path, approx, dif', h1, hr⟩ := hrep.1 hb
+  rw [hadd] at h1
+  simp only [Option.some.injEq, Prod.mk.injEq] at h1
+  obtain ⟨rfl, rfl, rfl⟩ := h1
+  obtain ⟨last, g1, g2, g3⟩ := hr.goal
+  refine ⟨hr.start, hr.edges, last, g1, fun ha => ?_, fun ha => ⟨?_, pr, hpr, g3.1 ha⟩⟩
+  · rw [hdif, ha]; exact g2
+  · rw [hdif, ha]; rfl
+
+/-- **The approximate flag of a problem definition that holds several solutions** (`solutions_[0]` under
+`PlannerSolution::operator<`, for every comparison of differences and every cost clause): `hasApproximateSolution()`
+is true iff there is a solution and ALL solutions are approximate — one exact solution, from whichever call, keeps the
+flag false whatever is added later. -/
+theorem hasApproximate_iff_all (lt : D → D → Bool) (better : P → P → Bool) (pd : Pdef S P D) :
+    hasApproximateSolution lt better pd = true ↔
+      pd.solutions ≠ [] ∧ ∀ s ∈ pd.solutions, s.approximate = true := by
+  have key : ∀ l : List (Solution P D),
+      (top lt better l = none ↔ l = []) ∧
+      ∀ t, top lt better l = some t → t ∈ l ∧ (t.approximate = true ↔ ∀ s ∈ l, s.approximate = true) := by
+    intro l
+    induction l with
+    | nil => simp [top]
+    | cons s rest ih =>
+      obtain ⟨ih1, ih2⟩ := ih
+      refine ⟨by simp only [top]; split <;> (try split) <;> simp, ?_⟩
+      intro t ht
+      simp only [top] at ht
+      split at ht
+      · next hnone =>
+        simp only [Option.some.injEq] at ht
+        subst ht
+        have := ih1.1 hnone
+        subst this
+        simp
+      · next t' ht' =>
+        obtain ⟨m1, m2⟩ := ih2 t' ht'
+        split at ht
+        · next hlt =>
+          simp only [Option.some.injEq] at ht
+          subst ht
+          refine ⟨List.mem_cons_of_mem _ m1, ?_⟩
+          simp only [List.mem_cons, forall_eq_or_imp]
+          rw [← m2]
+          simp only [solLt] at hlt
+          cases ha : t'.approximate <;> cases hb : s.approximate <;> simp_all
+        · next hlt =>
+          simp only [Option.some.injEq] at ht
+          subst ht
+          refine ⟨by simp, ?_⟩
+          simp only [List.mem_cons, forall_eq_or_imp]
+          rw [← m2]
+          simp only [solLt] at hlt
+          cases ha : t'.approximate <;> cases hb : s.approximate <;> simp_all
+  unfold hasApproximateSolution
+  obtain ⟨k1, k2⟩ := key pd.solutions
+  split
+  · next t ht =>
+    obtain ⟨m1, m2⟩ := k2 t ht
+    rw [m2]
+    constructor
+    · intro h; exact ⟨fun he => by rw [he] at m1; simp at m1, h⟩
+    · intro h; exact h.2
+  · next hn =>
+    have := k1.1 hn
+    simp [this]
+
+end History
+
+
+/-! ## L0g: `GoalStates` (several goal states; round 10)
+
+The planner models take the goal as an oracle `goalSample : Nat → S` (the `k`-th state `sampleGoal` hands to the
+planner's `PlannerInputStates`) with `maxGoalSamples`.  `Model/GoalStates.lean` is the shipped multi-state goal; the
+lock-step drives RRT, RRTConnect and LazyPRM with it (first goal invalid, goals out of bounds, duplicates). -/
+
+section GoalStatesSec
+open OmplModel.GoalStates
+
+/-- **Sampling order of `GoalStates`**: `n` consecutive `sampleGoal` calls on a goal whose counter starts at 0 hand out
+`states[0], states[1], …` cyclically (`samplePosition_` is reduced modulo the size *before* use and incremented without
+roll-over after it), and every state handed out by a non-empty goal is one of its states. -/
+theorem goalstates_sampling (states : Array S) (dflt : S) (n k : Nat) (hk : k < n) :
+    (sampleMany states dflt n 0).1[k]? = some (kth states dflt k) ∧
+      (0 < states.size → kth states dflt k ∈ states) :=
+  ⟨kth_eq_iterate states dflt n k hk, kth_mem states dflt k⟩
+
+example : (sampleMany #[7, 8, 9] 0 5 0) = ([7, 8, 9, 7, 8], 2) := by decide
+
+/-- **`GoalStates::distanceGoal`** returns its initial value (infinity) or the distance to one of the goal states —
+never a number that is not a distance to a goal state. -/
+theorem goalstates_distance (dist : S → S → D) (lt : D → D → Bool) (inf : D) (states : Array S) (st : S) :
+    distanceGoal dist lt inf states st = inf ∨ ∃ s ∈ states, distanceGoal dist lt inf states st = dist st s :=
+  distanceGoal_mem dist lt inf states st
+
+example : distanceGoal (fun a b : Nat => if a < b then b - a else a - b) (fun a b => decide (a < b)) 1000 #[2, 9, 6] 7 = 1 := by
+  decide
+
+/-- **RRTConnect on a `GoalStates` goal**: an EXACT path ends at one of the user's goal states, and that state
+satisfies the bounds and is valid (an invalid or out-of-bounds goal state is never connected to). -/
+theorem rrtconnect_goalstates_real (cfg : RRTConnect.Cfg S D) (goals : Array S) (dflt : S)
+    (hs : cfg.goalSample = kth goals dflt) (hm : cfg.maxGoalSamples = goals.size)
+    (starts : Array S) (ptc : Nat) (startTree : Bool) (script : List S)
+    (hst : (RRTConnect.solve cfg starts ptc startTree script).status = .exactSolution) :
+    ∃ path g, (RRTConnect.solve cfg starts ptc startTree script).added = some (path, false, cfg.zero) ∧
+      path.getLast? = some g ∧ g ∈ goals ∧ cfg.bounds g = true ∧ cfg.valid g = true := by
+  have hb : (RRTConnect.solve cfg starts ptc startTree script).status.toBool = true := by rw [hst]; rfl
+  rcases (rrtconnect_solution_real cfg starts ptc startTree script).1 hb with ⟨path, h1, _, hr⟩ | ⟨_, _, _, h2, _⟩
+  · obtain ⟨s0, g, _, hl, _, ⟨k, hk, hg, hbnd, hv⟩, _⟩ := hr.ends
+    refine ⟨path, g, h1, hl, ?_, hbnd, hv⟩
+    rw [← hg, hs]
+    exact kth_mem goals dflt k (by omega)
+  · rw [hst] at h2; exact absurd h2 (by simp)
+
+/-- **LazyPRM on a `GoalStates` goal**: the same. -/
+theorem lazyprm_goalstates_real (cfg : LazyPRM.Cfg S D) (goals : Array S) (dflt : S)
+    (hs : cfg.goalSample = kth goals dflt) (hm : cfg.maxGoalSamples = goals.size)
+    (starts : Array S) (ptc : Nat) (evs : List (LazyPRM.Event S))
+    (hb : (LazyPRM.solve cfg starts ptc evs).status.toBool = true) :
+    ∃ path c g, (LazyPRM.solve cfg starts ptc evs).added = some (path, false, c) ∧
+      path.getLast? = some g ∧ g ∈ goals ∧ cfg.bounds g = true ∧ cfg.valid g = true := by
+  obtain ⟨path, c, h1, _, hr⟩ := (lazyprm_solution_real cfg starts ptc evs).1 hb
+  obtain ⟨g, hl, k, hk, hg, hbnd, hv⟩ := hr.goal
+  refine ⟨path, c, g, h1, hl, ?_, hbnd, hv⟩
+  rw [← hg, hs]
+  exact kth_mem goals dflt k (by omega)
+
+end GoalStatesSec
+
 /-! ### non-vacuity: a toy world on the number line
 
 States are naturals, the range is 2, landing on 5 is invalid, the goal is 6 with threshold 1 (so only 6
@@ -862,5 +1078,48 @@ example : (LazyPRM.solve toyL #[30, 0] 10 (toyEvents.take 5)).status = .timeout 
     (LazyPRM.solve toyL #[30, 0] 10 (toyEvents.take 5)).rm.alive = #[true, true, true, false] := by decide
 /-- an oracle answer that is not a walk in the roadmap is rejected by the model -/
 example : (LazyPRM.solve toyL #[30, 0] 10 [.draw 3, .astar [0, 7, 1]]).oracleBad = true := by decide
+
+/-! ### non-vacuity for histories: the toy world again
+
+`solve` (2 iterations: approximate `[0,2,4]`), `addStartState(8)`, `solve` again on the SAME tree (one goal draw: the
+kept node 4 is extended to 6, exact `[0,2,4,6]`; the new start 8 became a root), `setThreshold(5)`, `clear()`,
+`setIntermediateStates(true)`, `solve` (roots 0 and 8 again; the draw 11 extends 8 by the chain 9, 10: exact under the new
+threshold), `clearSolutionPaths()`, `solve` with an empty script: TIMEOUT?  No — the tree is kept, but `approxsol` is a
+local: nothing is reported. -/
+
+def toyOps : List (Op Nat Nat) :=
+  [.solve (toyScript.take 2), .addStart 8, .solve [⟨true, 6⟩], .setThreshold 5, .clear, .setIntermediate true,
+   .solve [⟨false, 11⟩], .clearSolutions, .solve []]
+
+example : (runOps (toy false) 1 7 (World.fresh #[30, 5, 0] ⟨2, 1, false⟩) toyOps).2.map (fun r => (r.status, r.added)) =
+    [(.approximateSolution, some ([0, 2, 4], true, 2)), (.exactSolution, some ([0, 2, 4, 6], false, 0)),
+     (.exactSolution, some ([8, 9, 10], false, 4)), (.timeout, none)] := by decide
+example : (runOps (toy false) 1 7 (World.fresh #[30, 5, 0] ⟨2, 1, false⟩) (toyOps.take 7)).1.pd.solutions.map
+      (fun s => (s.path, s.approximate, s.difference, s.index)) =
+    [([0, 2, 4], true, 2, 0), ([0, 2, 4, 6], false, 0, 1), ([8, 9, 10], false, 0, 2)] ∧
+    (runOps (toy false) 1 7 (World.fresh #[30, 5, 0] ⟨2, 1, false⟩) toyOps).1.pd.solutions.length = 0 ∧
+    (runOps (toy false) 1 7 (World.fresh #[30, 5, 0] ⟨2, 1, false⟩) toyOps).1.planner.tree.size = 4 ∧
+    (runOps (toy false) 1 7 (World.fresh #[30, 5, 0] ⟨2, 1, false⟩) toyOps).1.planner.pis.addedStartStates = 4 := by decide
+/-- `setRange(0)` after `setup()` is taken literally, a second `setup()` replaces it by the automatic value -/
+example : (runOps (toy false) 1 7 (World.fresh #[0] ⟨2, 1, false⟩) [.setRange 0]).1.params.maxDistance = 0 ∧
+    (runOps (toy false) 1 7 (World.fresh #[0] ⟨2, 1, false⟩) [.setRange 0, .setup]).1.params.maxDistance = 7 := by decide
+/-- one exact solution keeps `hasApproximateSolution()` false -/
+example : hasApproximateSolution (fun a b : Nat => decide (a < b)) (fun _ _ : List Nat => false)
+    (runOps (toy false) 1 7 (World.fresh #[30, 5, 0] ⟨2, 1, false⟩) (toyOps.take 1)).1.pd = true ∧
+    hasApproximateSolution (fun a b : Nat => decide (a < b)) (fun _ _ : List Nat => false)
+    (runOps (toy false) 1 7 (World.fresh #[30, 5, 0] ⟨2, 1, false⟩) (toyOps.take 3)).1.pd = false := by decide
+
+/-! ### non-vacuity for `GoalStates`: goal states 5 (invalid), 12, 6 — the first sample is filtered out, the second becomes
+the goal-tree root and the path ends there; with only invalid / out-of-bounds goal states the answer is INVALID_GOAL -/
+
+def toyCg (goals : Array Nat) : RRTConnect.Cfg Nat Nat :=
+  { toyC false 0 10 with
+    goalSample := GoalStates.kth goals 0, maxGoalSamples := goals.size,
+    goalDist := GoalStates.distanceGoal (fun a b => if a < b then b - a else a - b) (fun a b => decide (a < b)) 1000 goals }
+
+example : (RRTConnect.solve (toyCg #[5, 12, 6]) #[30, 5, 0] 9 true [9, 9, 9, 9, 9, 9]).status = .exactSolution ∧
+    (RRTConnect.solve (toyCg #[5, 12, 6]) #[30, 5, 0] 9 true [9, 9, 9, 9, 9, 9]).added = some ([0, 2, 4, 6, 8, 10, 12], false, 0) ∧
+    (RRTConnect.solve (toyCg #[5, 12, 6]) #[30, 5, 0] 9 true [9, 9, 9, 9, 9, 9]).pis.sampledGoalsCount = 2 ∧
+    (RRTConnect.solve (toyCg #[5, 25]) #[30, 5, 0] 9 true [9, 9, 9]).status = .invalidGoal := by decide
 
 end OmplModel.Props.C01
